@@ -32,7 +32,10 @@ if os.path.realpath(REPO) != '/repo' and not os.environ.get('VERIF_SHARED_LEAN')
     # Lake project, so regenerated Gen/*.lean files never disturb runs against /repo itself.
     LEAN = '/tmp/verif_lean_' + hashlib.sha1(os.path.realpath(REPO).encode()).hexdigest()[:10]
     os.makedirs(LEAN, exist_ok=True)
-    subprocess.run(['rsync', '-a', '--delete', '--exclude', '.lake/verif.lock', os.path.join(VERIF, 'lean') + '/', LEAN + '/'], check=True)
+    _rc = subprocess.run(['rsync', '-a', '--delete', '--exclude', '.lake/verif.lock', '--exclude', '*.tmp', '--exclude', '.lake/audit',
+                          os.path.join(VERIF, 'lean') + '/', LEAN + '/']).returncode
+    if _rc not in (0, 23, 24):      # 23/24: files vanished while another build was writing; lake rebuilds what is missing
+        raise RuntimeError('rsync of the Lake project failed: %d' % _rc)
 GEN = os.path.join(LEAN, 'VtlModel', 'Gen')
 PROPS = os.path.join(LEAN, 'VtlModel', 'Props')
 ALLOWED_AXIOMS = {'propext', 'Classical.choice', 'Quot.sound'}
